@@ -422,7 +422,7 @@ func TestC10_ScriptedRatings(t *testing.T) {
 				}
 				w.upsert(rapid.SampledFrom(names).Draw(t, "who"), wt)
 			case 1:
-				if len(w.servers) > 2 {
+				if len(w.servers) > 2 || (len(w.servers) == 2 && rapid.IntRange(0, 2).Draw(t, "downToOne") == 0) { // the pool may shrink to a single server
 					w.remove(w.servers[rapid.IntRange(0, len(w.servers)-1).Draw(t, "rm")].url.String())
 				}
 			case 2, 3:
@@ -444,6 +444,9 @@ func TestC10_ScriptedRatings(t *testing.T) {
 				w.exchange = 0
 			case 9: // outlier episode (e)
 				k := len(w.servers)
+				if k < 2 {
+					break
+				}
 				nb := rapid.IntRange(1, k-1).Draw(t, "nbad")
 				for j, s := range w.servers {
 					s.m.ready = true
